@@ -693,6 +693,34 @@ pub fn ts_prolog() -> String {
   collector
 }
 
+/// The text of a string constant as it is written between the back quotes of a JS template
+/// literal. The escape sequences of samlang (`\\t \\v \\0 \\b \\f \\n \\r \\\\`) mean the same in a
+/// template literal, so they are kept; what would change the meaning there is rewritten:
+/// a back quote would end the literal and `${` would start a substitution (both escaped),
+/// a raw carriage return would be normalized to a line feed (written as `\\r`), and `\\0`
+/// followed by a digit would be an octal escape, which is a syntax error (written as `\\x00`).
+fn template_literal_text(s: &str) -> String {
+  let mut out = String::with_capacity(s.len());
+  let mut chars = s.chars().peekable();
+  while let Some(c) = chars.next() {
+    match c {
+      '\\' => match chars.next() {
+        Some('0') if chars.peek().is_some_and(|d| d.is_ascii_digit()) => out.push_str("\\x00"),
+        Some(n) => {
+          out.push('\\');
+          out.push(n);
+        }
+        None => out.push('\\'),
+      },
+      '`' => out.push_str("\\`"),
+      '$' if chars.peek() == Some(&'{') => out.push_str("\\$"),
+      '\r' => out.push_str("\\r"),
+      _ => out.push(c),
+    }
+  }
+  out
+}
+
 impl Sources {
   pub fn pretty_print(&self, heap: &Heap) -> String {
     let mut collector = ts_prolog();
@@ -702,9 +730,7 @@ impl Sources {
       collector.push_str("const GLOBAL_STRING_");
       collector.push_str(&i.to_string());
       collector.push_str(": _Str = [0, `");
-      // The text sits inside a template literal: a back quote would end it and `${` would start
-      // a substitution, so both are escaped to stay literal characters of the string.
-      collector.push_str(&s.as_str(heap).replace('`', "\\`").replace("${", "\\${"));
+      collector.push_str(&template_literal_text(s.as_str(heap)));
       collector.push_str("` as unknown as number];\n");
       str_lookup_table.insert(*s, i);
     }
